@@ -190,21 +190,16 @@ def boundary_rule(ctx, repo, dis):
                     continue      # the opcode itself is cut off: both fall back to data by construction of their prefix tests
                 want = length if address + length <= 65536 else 65536 - address
                 try:
-                    g = mf.call('decode', [mem, address, address + 1])
-                    got = g[0][1] if g else None
-                except NotLiteral as e:
-                    got = None
-                    try:
-                        v = mem[address]
-                        if v == 0xCB: r = mf.call('_after_cb', [mem, address + 1])
-                        elif v == 0xED: r = mf.call('_after_ed', [mem, address + 1])
-                        elif v in (0xDD, 0xFD): r = mf.call('_after_dd', [mem, address + 1, v])
-                        else: r = mf.call('_opcode', [mem, address, v])
-                        got = r[0]
-                    except NotLiteral as e2:
-                        ctx.limit(name, 'opcodes.py decoder not foldable: %s' % e2)
-                        bad = 'limit'
-                        break
+                    v = mem[address]
+                    if v == 0xCB: r = mf.call('_after_cb', [mem, address + 1])
+                    elif v == 0xED: r = mf.call('_after_ed', [mem, address + 1])
+                    elif v in (0xDD, 0xFD): r = mf.call('_after_dd', [mem, address + 1, v])
+                    else: r = mf.call('_opcode', [mem, address, v])
+                    got = r[0]
+                except NotLiteral as e2:
+                    ctx.limit(name, 'opcodes.py decoder not foldable: %s' % e2)
+                    bad = 'limit'
+                    break
                 if got != want:
                     bad = (address, got, want)
                     break
